@@ -310,8 +310,8 @@ Definition op_delete (s : store) (name : str) : store * result :=
   end.
 
 (** db.renameInboxPerUser: parents (autocommit, they stay if a later step fails),
-    the target row, then ONE transaction: the target inherits INBOX's uid_next
-    and the links are re-parented *)
+    the target row, then ONE transaction: the target's uid_next becomes the larger
+    of its own and INBOX's, and the links are re-parented *)
 Definition rename_inbox (s : store) (new : str) (t : Z) : store * result :=
   match find_name s new with
   | Some _ => (s, RNo)
@@ -324,7 +324,9 @@ Definition rename_inbox (s : store) (new : str) (t : Z) : store * result :=
       match create_mailbox_row s0 new t with
       | None => (s0, RNo)
       | Some (s1, nid) =>
-        match reparent (set_next s1 nid (mb_next ib)) (mb_id ib) nid with
+        (* UPDATE .. SET uid_next = MAX(uid_next, INBOX's) (raven 8552cfb) *)
+        let cur := match find_id s1 nid with Some mt => mb_next mt | None => 1 end in
+        match reparent (set_next s1 nid (Z.max cur (mb_next ib))) (mb_id ib) nid with
         | Some s2 => (s2, ROk)
         | None => (s1, RNo)
         end
